@@ -24,7 +24,7 @@ ASSUMPTIONS = [
 ]
 CASES = {"quick": 15000, "thorough": 600000}
 MIN_CASES = {"quick": 3000, "thorough": 10000}
-REQUIRED_COUNTERS = ["hard_modules_relocated_before_allocation", "ratios_compared", "membership_judged", "fixed_cells_checked", "module_areas_compared", "squares_checked",
+REQUIRED_COUNTERS = ["allocated_again_after_initial_grid", "allocated_again_after_further_refinement", "hard_modules_relocated_before_allocation", "ratios_compared", "membership_judged", "fixed_cells_checked", "module_areas_compared", "squares_checked",
                      "refine:none", "refine:split", "refine:grid", "zero:on", "zero:off", "full_cover_cells"]
 
 
@@ -34,13 +34,14 @@ def setup(ctx):
 
 def generate(rng, tier, i):
     grid = (i % 5 == 4)
-    d = gd.gen_die(rng, max_n=8, struct="empty" if grid else None)
+    twice_on_empty = (i % 25 == 7)         # unrefined empty die: allocate, grid it, allocate again
+    d = gd.gen_die(rng, max_n=8, struct="empty" if grid or twice_on_empty else None)
     doc = gn.gen_compatible(rng, d)
     if grid:
         ref = ["grid", rng.randint(1, 5), rng.randint(1, 5)]
         if ref[1] + ref[2] < 3:
             ref[2] = 2
-    elif rng.random() < 0.5:
+    elif rng.random() < 0.5 and not twice_on_empty:
         ref = ["split", rng.choice([1.5, 2, 3, 10]), rng.choice([1, 2, 4, 8, 16])]
     else:
         ref = ["none"]
@@ -52,7 +53,7 @@ def generate(rng, tier, i):
         for name, m in doc["Modules"].items():
             if m.get("hard") is True:
                 move[name] = [rng.choice([-1, 1, 2, 0.5]) * float(d["W"]) / max(d["nx"], 1), rng.choice([0, 1, -0.5]) * float(d["H"]) / max(d["ny"], 1)]
-    return {"cls": ref[0], "die": slim, "netlist": doc, "refine": ref, "zero": rng.random() < 0.3, "move": move}
+    return {"cls": ref[0], "die": slim, "netlist": doc, "refine": ref, "zero": rng.random() < 0.3, "move": move, "allocate_twice": twice_on_empty or rng.random() < 0.2}
 
 
 def directed():
@@ -118,6 +119,19 @@ def check(case, ctx):
                 break
     ctx.count("zero:on" if zero else "zero:off")
     had_rects = {m.name: m.num_rectangles > 0 for m in nl.modules}
+    if case.get("allocate_twice"):
+        # allocate, refine the die further, allocate again: the second allocation must be built on the die as it is NOW
+        ctx.call(create_initial_allocation, die, False)
+        had_rects = {m.name: True if m.is_hard else had_rects[m.name] for m in nl.modules}
+        for m in nl.modules:          # squares created by the first call belong to the netlist now
+            had_rects[m.name] = m.num_rectangles > 0
+        if len(die.ground_regions) == 1 and not die.specialized_regions and not die.blockages and not die.fixed_regions:
+            die.initial_grid(2, 3)
+            ctx.count("allocated_again_after_initial_grid")
+        elif die.ground_regions or die.specialized_regions:
+            die.split_refinable_regions(2, 2 * (len(die.ground_regions) + len(die.specialized_regions)))
+        refinable = die.specialized_regions + die.ground_regions
+        ctx.count("allocated_again_after_further_refinement")
     ok, alloc = ctx.call(create_initial_allocation, die, zero)
     what = f"die={case['die']} netlist={case['netlist']} refine={case['refine']} zero={zero}"
     if not ok:
